@@ -268,6 +268,37 @@ def main():
         return len(top_returns) == 1
     g.attempt("fab.startKeepsHandles", True, start_keeps)
 
+    def start_checks_own():
+        fn = find_func(find_func(AF, "start"), "initiate_thread")
+        param = fn.args.args[0].arg
+        calls = [n for n in ast.walk(fn) if isinstance(n, ast.If) for c in ast.walk(n.test)
+                 if isinstance(c, ast.Call) and isinstance(c.func, ast.Attribute) and c.func.attr == "is_alive"]
+        tests = [c for n in ast.walk(fn) if isinstance(n, ast.If) for c in ast.walk(n.test)
+                 if isinstance(c, ast.Call) and isinstance(c.func, ast.Attribute) and c.func.attr == "is_alive"]
+        if len(tests) != 1:
+            raise ValueError("initiate_thread: expected one is_alive() test in its condition")
+        who = unparse(tests[0].func.value)
+        if who == param:
+            return True
+        if who == "self":
+            return False
+        raise ValueError("initiate_thread: is_alive() of %s" % who)
+    g.attempt("fab.startChecksOwnThread", True, start_checks_own)
+
+    def subscribe_locked():
+        fn = find_func(AF, "subscribe")
+        withs = [n for n in fn.body if isinstance(n, ast.With) and "subscription_lock" in unparse(n.items[0])]
+        calls = [n for n in ast.walk(fn) if isinstance(n, ast.Call) and unparse(n.func) == "_subscribe"]
+        if not calls:
+            raise ValueError("subscribe: no call of _subscribe")
+        inside = [c for w in withs for c in ast.walk(w) if isinstance(c, ast.Call) and unparse(c.func) == "_subscribe"]
+        if withs and len(inside) == len(calls):
+            return True
+        if not inside:
+            return False
+        raise ValueError("subscribe: only some _subscribe calls are under the lock")
+    g.attempt("fab.subscribeLocked", True, subscribe_locked)
+
     def clear_in_place():
         fn = [n for n in AF.body if isinstance(n, ast.FunctionDef) and n.name == "clear"][0]
         src = unparse(fn)
@@ -355,6 +386,20 @@ def main():
             return False
         raise ValueError("timer runner / cancel functions use the source lock inconsistently")
     g.attempt("ao.cancelLocked", True, cancel_locked)
+
+    def stop_snapshot_after_join():
+        fn = ao_method("stop")
+        joins = [n for n in ast.walk(fn) if isinstance(n, ast.Call) and unparse(n.func) == "self.thread.join"]
+        if len(joins) != 1:
+            raise ValueError("stop: expected exactly one self.thread.join()")
+        reads = [n for n in ast.walk(fn) if isinstance(n, ast.Attribute) and n.attr == "posted_events_queue"]
+        if len(reads) != 1:
+            raise ValueError("stop: expected exactly one read of posted_events_queue")
+        cancels = [n for n in ast.walk(fn) if isinstance(n, ast.Call) and unparse(n.func) in ("self.cancel_events", "self.cancel_event")]
+        if len(cancels) != 1 or cancels[0].lineno < joins[0].lineno:
+            raise ValueError("stop: the cancel loop is not after the join")
+        return reads[0].lineno > joins[0].lineno
+    g.attempt("ao.stopSnapshotAfterJoin", True, stop_snapshot_after_join)
 
     # ---- active object: publish / subscribe wrappers ---------------------------
     def wrapper_always_calls():
@@ -557,6 +602,9 @@ def main():
         b(v["ps.wrapperAlwaysCalls"]), b(v["ps.subscribedAsksOwnQueue"])))
     lines.append("def aoTags : Miros.Conc.AO.Tags := { checkBeforeStart := %s, cancelEq := %s, cancelLocked := %s }" % (
         b(v["ao.checkBeforeStart"]), b(v["ao.cancelEq"]), b(v["ao.cancelLocked"])))
+    lines.append("def fabStartChecksOwnThread : Bool := " + b(v["fab.startChecksOwnThread"]))
+    lines.append("def aoStopSnapshotAfterJoin : Bool := " + b(v["ao.stopSnapshotAfterJoin"]))
+    lines.append("def fabSubscribeLocked : Bool := " + b(v["fab.subscribeLocked"]))
     lines.append("end Miros.Gen")
     text = "\n".join(lines) + "\n"
     os.makedirs(os.path.dirname(OUT), exist_ok=True)
